@@ -80,6 +80,12 @@ def gen_cases(tier, seed):
         for i in range(0, len(base), step):
             yield {"kind": "seq", "namekind": kind, "datasets": [D.rename(x, names) for x in base[i:i + step]],
                    "depth": depth}
+    # names of mixed RAW types (Python ints next to non-integer-like strings): everything must become str
+    for names in ([0, "a", 2], ["b", 1, "2"]):
+        for i in range(0, len(base), 12):
+            yield {"kind": "static", "namekind": "typemix", "datasets": [D.rename(x, names) for x in base[i:i + 12]]}
+        for i in range(0, len(base), 24):
+            yield {"kind": "seq", "namekind": "typemix", "datasets": [D.rename(x, names) for x in base[i:i + 6]], "depth": 2}
     if not quick:
         for kind in ("perm", "mixed"):
             names = D.NAME_KINDS[kind](3)
